@@ -102,7 +102,11 @@ func logical(m Model) ([]ll, error) {
 				out = append(out, ll{sec: name, role: "close", realm: k, depth: 0, depthAfter: 0})
 			}
 		case "domain_realm":
-			for _, d := range m.Domains {
+			first := m.Domains
+			if m.DomainSplit > 0 && m.DomainSplit < len(m.Domains) {
+				first = m.Domains[:m.DomainSplit]
+			}
+			for _, d := range first {
 				out = append(out, ll{sec: name, role: "entry", realm: -1, tag: d.Domain, val: d.Realm})
 			}
 		default:
@@ -111,6 +115,12 @@ func logical(m Model) ([]ll, error) {
 				return nil, fmt.Errorf("section %s in order but not in model", name)
 			}
 			blockLines(&out, name, -1, 0, s.Lines)
+		}
+	}
+	if seen["domain_realm"] && m.DomainSplit > 0 && m.DomainSplit < len(m.Domains) {
+		out = append(out, ll{sec: "domain_realm", role: "header", realm: -1, tag: "domain_realm"})
+		for _, d := range m.Domains[m.DomainSplit:] {
+			out = append(out, ll{sec: "domain_realm", role: "entry", realm: -1, tag: d.Domain, val: d.Realm})
 		}
 	}
 	if (len(m.Lib) > 0 && !seen["libdefaults"]) || (len(m.Realms) > 0 && !seen["realms"]) || (len(m.Domains) > 0 && !seen["domain_realm"]) {
